@@ -367,12 +367,15 @@ theorem whole_stack_base_lt (xm : List Region) (m : Memory) (h : MemRel xm m) : 
 
 theorem whole_exit_machine (c : Cfg) (tgt : Tgt → Option Nat) (retAddr : Nat) (σ : St) (s : State) (a b : Nat)
     (hchk : checkSeq c.code tgt a [.i .ret] = some b) (hrip : σ.rip = c.codeBase + a)
-    (hrel : Rel0 retAddr σ s) (hret : BitVec.ofNat 64 retAddr ≠ c.retSentinel) (hretlt : retAddr < 2 ^ 64) :
+    (hrel : Rel0 retAddr σ s) (hf : s.frames = []) (hret : BitVec.ofNat 64 retAddr ≠ c.retSentinel) (hretlt : retAddr < 2 ^ 64) :
     ∃ σ', stepsN c 1 σ = some σ' ∧ σ'.rip = retAddr ∧ σ'.get 0 = s.reg.getD 0 0 ∧ σ'.mem = σ.mem ∧
       (σ'.get X86.RSP).toNat = s.mem.stack.base ∧ σ'.log = σ.log ∧ σ'.misaligned = σ.misaligned := by
   obtain ⟨n, hdec, -⟩ := checkSeq_i c.code tgt a b .ret [] hchk
   have hbase := whole_stack_base_lt σ.mem s.mem hrel.mem
-  have hrsp := hrel.rsp
+  have hrsp : (σ.get X86.RSP).toNat + 8 = s.mem.stack.base := by
+    have := hrel.rsp
+    rw [hf] at this
+    simpa using this
   have hr := hrel.ret
   have h0 : σ.get 0 = s.reg.getD 0 0 := by
     have := hrel.regs 0 (by omega)
